@@ -2725,6 +2725,199 @@ Qed.
 
 End Opts.
 
+(* ------------------------------------------------------------------------------------------ *)
+(** * Part D3: the zone with references, independent of the depth: monotonicity of [agreen] in its depth, and the
+    closed-set certificate [agree_all] (a finite set of schema pairs, closed under the pairs visited next) *)
+Open Scope Z_scope.
+Lemma agreen_S k we re w r : agreen (S k) we re w r = agree_step (agreen k we re) we re w r.
+Proof. reflexivity. Qed.
+
+Lemma on_reader_mono we re w r (f1 g1 f2 g2 : schema -> bool) :
+  (forall b, f1 b = true -> f2 b = true) -> (forall b, g1 b = true -> g2 b = true) ->
+  on_reader we re w r f1 g1 = true -> on_reader we re w r f2 g2 = true.
+Proof.
+  intros Hf Hg. unfold on_reader.
+  destruct (deref1 re r); try (destruct (smatch we re true w r); [apply Hg|trivial]).
+  destruct (spec_idx we re w bs) as [j|]; [|trivial]. destruct (nth_error bs j); [apply Hf|trivial].
+Qed.
+
+Lemma agree_step_mono (f g : schema -> schema -> bool) we re w r :
+  (forall a b, f a b = true -> g a b = true) ->
+  agree_step f we re w r = true -> agree_step g we re w r = true.
+Proof.
+  intros IH H. unfold agree_step in H |- *.
+  apply andb_prop in H. destruct H as [Htr H]. rewrite Htr. cbn [andb].
+  assert (Hrec : forall wfs rfs,
+     forallb (fun wf => match reader_field rfs (fname wf) with
+                        | Some rf => f (ftype wf) (ftype rf)
+                        | None => true end) wfs && defaults_ok re rfs = true ->
+     forallb (fun wf => match reader_field rfs (fname wf) with
+                        | Some rf => g (ftype wf) (ftype rf)
+                        | None => true end) wfs && defaults_ok re rfs = true).
+  { intros wfs rfs Hn. apply andb_prop in Hn. destruct Hn as [Hf Hd]. rewrite Hd, andb_true_r.
+    rewrite forallb_forall in Hf |- *. intros wf Hin. specialize (Hf wf Hin).
+    destruct (reader_field rfs (fname wf)); [apply IH; exact Hf|reflexivity]. }
+  destruct w; cbv beta iota in H |- *;
+    try (eapply on_reader_mono; [| |exact H]; cbv beta; intros b Hb;
+         solve [ exact Hb
+               | destruct (deref1 re b); solve [exact Hb | apply IH; exact Hb | apply Hrec; exact Hb]
+               | destruct b; solve [exact Hb | apply IH; exact Hb | apply Hrec; exact Hb] ]).
+  all: try (destruct (lookup we n) as [wd|]; [|discriminate H];
+    eapply on_reader_mono; [| |exact H]; intros b Hb; apply IH; exact Hb).
+  all: rewrite forallb_forall in H |- *; intros wb Hin; specialize (H wb Hin);
+    eapply on_reader_mono; [| |exact H]; intros b Hb; apply IH; exact Hb.
+Qed.
+
+(** checking deeper implies checking less deep *)
+Lemma agreen_anti : forall k we re w r, agreen (S k) we re w r = true -> agreen k we re w r = true.
+Proof.
+  induction k as [|k IH]; intros we re w r H; [reflexivity|].
+  rewrite agreen_S in H |- *. revert H. apply agree_step_mono. intros a b. apply IH.
+Qed.
+Lemma agreen_le k k' we re w r : (k <= k')%nat -> agreen k' we re w r = true -> agreen k we re w r = true.
+Proof. induction 1 as [|k' _ IH]; intros H; [exact H|]. apply IH. apply agreen_anti. exact H. Qed.
+
+(** structural equality is equality *)
+Lemma py_eqb_eq : forall a b, py_eqb a b = true -> a = b.
+Proof.
+  fix IH 1. intros a b; destruct a; destruct b; cbn; try discriminate; intros H; try reflexivity.
+  - f_equal. apply Bool.eqb_prop. exact H.
+  - f_equal. lia.
+  - f_equal. lia.
+  - f_equal. apply bytes_eqb_eq; exact H.
+  - f_equal. apply bytes_eqb_eq; exact H.
+  - f_equal. apply bytes_eqb_eq; exact H.
+  - f_equal. revert l0 H. induction l as [|x l IHl]; intros [|y l0] H; try discriminate; auto.
+    apply andb_prop in H as [H1 H2]. f_equal; [apply IH; exact H1 | apply IHl; exact H2].
+  - f_equal. revert l0 H. induction l as [|x l IHl]; intros [|y l0] H; try discriminate; auto.
+    apply andb_prop in H as [H1 H2]. f_equal; [apply IH; exact H1 | apply IHl; exact H2].
+  - f_equal. revert kv0 H. induction kv as [|[k x] l IHl]; intros [|[k' y] l0] H; try discriminate; auto.
+    apply andb_prop in H as [H1 H2]. apply andb_prop in H1 as [H0 H1].
+    f_equal; [f_equal; apply IH; assumption | apply IHl; exact H2].
+Qed.
+Lemma sl_eqb_eq : forall a b, sl_eqb a b = true -> a = b.
+Proof.
+  induction a as [|x a IH]; intros [|y b] H; cbn in H; try discriminate; auto.
+  apply andb_prop in H as [H1 H2]. f_equal; [apply bytes_eqb_eq; exact H1|auto].
+Qed.
+Lemma o_eqb_eq {A} (eq : A -> A -> bool) : (forall a b, eq a b = true -> a = b) ->
+  forall a b, o_eqb eq a b = true -> a = b.
+Proof. intros He [a|] [b|] H; cbn in H; try discriminate; auto. f_equal; auto. Qed.
+
+Lemma sch_eqb_eq : forall a b, sch_eqb a b = true -> a = b.
+Proof.
+  fix IH 1. intros a b; destruct a; destruct b; cbn; try discriminate; intros H; try reflexivity.
+  - repeat (apply andb_prop in H as [H ?]). f_equal; [apply bytes_eqb_eq|apply sl_eqb_eq|lia]; assumption.
+  - repeat (apply andb_prop in H as [H ?]).
+    f_equal; [apply bytes_eqb_eq|apply sl_eqb_eq|apply sl_eqb_eq|apply (o_eqb_eq _ bytes_eqb_eq)]; assumption.
+  - f_equal. apply IH; exact H.
+  - f_equal. apply IH; exact H.
+  - f_equal. revert bs0 H. induction bs as [|x l IHl]; intros [|y l0] H; try discriminate; auto.
+    apply andb_prop in H as [H1 H2]. f_equal; [apply IH; exact H1 | apply IHl; exact H2].
+  - apply andb_prop in H as [H H3]. apply andb_prop in H as [H1 H2].
+    f_equal; [apply bytes_eqb_eq; assumption|apply sl_eqb_eq; assumption|].
+    clear H1 H2. revert fs0 H3. induction fs as [|x l IHl]; intros [|y l0] H; try discriminate; auto.
+    repeat (apply andb_prop in H as [H ?]).
+    f_equal; [|apply IHl; assumption].
+    destruct x as [xn xt xd xa], y as [yn yt yd ya]; cbn in *.
+    f_equal; [apply bytes_eqb_eq|apply IH|apply (o_eqb_eq _ py_eqb_eq)|apply sl_eqb_eq]; assumption.
+  - f_equal. apply bytes_eqb_eq; exact H.
+  - apply andb_prop in H as [H1 H2]. f_equal; [apply bytes_eqb_eq; exact H1|apply IH; exact H2].
+Qed.
+
+Lemma memp_In p S : memp p S = true -> In p S.
+Proof.
+  unfold memp. rewrite existsb_exists. intros (q & Hin & Hq). unfold pair_eqb in Hq.
+  apply andb_prop in Hq as [H1 H2]. apply sch_eqb_eq in H1, H2. destruct p, q; cbn in *. subst. exact Hin.
+Qed.
+
+(** a closed set of pairs lies in the zone at every depth *)
+Lemma closed_agreen we re S : closedb we re S = true ->
+  forall k w r, memp (w, r) S = true -> agreen k we re w r = true.
+Proof.
+  intros Hc. induction k as [|k IH]; intros w r Hm; [reflexivity|].
+  rewrite agreen_S. unfold closedb in Hc. rewrite forallb_forall in Hc.
+  specialize (Hc (w, r) (memp_In _ _ Hm)). cbn [fst snd] in Hc.
+  revert Hc. apply agree_step_mono. intros a b. apply IH.
+Qed.
+
+Theorem agree_all_agreen we re w r : agree_all we re w r = true -> forall k, agreen k we re w r = true.
+Proof.
+  unfold agree_all. intros H k. apply andb_prop in H as [Hm Hc]. exact (closed_agreen we re _ Hc k w r Hm).
+Qed.
+
+
+(** reading with a reader schema = decode, then the SPECIFICATION, with by-name references, for values of any height *)
+Theorem rval_resolveS_all : forall o n we w a, typedn n we w a -> forall re r f, (n <= f)%nat ->
+  env_scoped we = true -> env_scoped re = true -> scoped we w = true -> scoped re r = true ->
+  agree_all we re w r = true ->
+  rval f we re o w (Some r) a = resolve o we re w r a.
+Proof.
+  intros o n we w a Ht re r f Hf Hew Her Hw Hr Ha.
+  exact (rval_resolveS o n we w a Ht re r n f (le_n n) Hf Hew Her Hw Hr (agree_all_agreen we re w r Ha n)).
+Qed.
+
+Theorem rdec_resolve_zoneS_all : forall o n we w a, typedn n we w a ->
+  forall re r f x, (n <= f)%nat ->
+  env_scoped we = true -> env_scoped re = true -> scoped we w = true -> scoped re r = true ->
+  agree_all we re w r = true ->
+  rdec f we re o w (Some r) (wire a ++ x)%list = lift x (resolve o we re w r a).
+Proof.
+  intros o n we w a Ht re r f x Hf Hew Her Hw Hr Ha.
+  exact (rdec_resolve_zoneS o n we w a Ht re r n f x (le_n n) Hf Hew Her Hw Hr (agree_all_agreen we re w r Ha n)).
+Qed.
+
+(** the well-formedness needed for the identity, independent of the depth: the conditions of [wf_ident] on the schema
+    itself and on every definition of the table *)
+Fixpoint wf_local (e : env) (s : schema) {struct s} : Prop :=
+  match s with
+  | SArray s' | SMap s' => wf_local e s' /\ smatch e e true s' s' = true
+  | SUnion bs => (fix go (bs : list schema) : Prop :=
+                    match bs with [] => True | b :: bs => wf_local e b /\ go bs end) bs /\ union_ok e bs
+  | SRecord _ _ fs => (fix go (fs : list field) : Prop :=
+                    match fs with [] => True | f :: fs => wf_local e (ftype f) /\ go fs end) fs /\ fields_ok fs
+  | SRef nm => exists d, lookup e nm = Some d /\ deref e d = strip d
+  | SAnnot _ s' => wf_local e s'
+  | _ => True
+  end.
+Definition wf_env (e : env) : Prop := Forall (fun nd => wf_local e (snd nd)) e.
+
+Lemma lookup_In e nm : forall d, lookup e nm = Some d -> exists k, In (k, d) e.
+Proof.
+  induction e as [|[k s] e IH]; intros d H; cbn in H; [discriminate|].
+  destruct (bytes_eqb k nm).
+  - injection H as <-. exists k. left. reflexivity.
+  - destruct (IH d H) as (k' & Hin). exists k'. right. exact Hin.
+Qed.
+
+Lemma wf_local_ident e : wf_env e -> forall n s, wf_local e s -> wf_ident n e s.
+Proof.
+  intros He. induction n as [|n IH]; intros s H; [exact I|].
+  destruct s; try exact I; cbn [wf_ident]; cbn [wf_local] in H.
+  - destruct H as [H1 H2]. split; [apply IH; exact H1|exact H2].
+  - destruct H as [H1 H2]. split; [apply IH; exact H1|exact H2].
+  - destruct H as [H1 H2]. split; [|exact H2]. clear H2.
+    induction bs as [|b bs IHb]; constructor; [apply IH; apply H1|apply IHb; apply H1].
+  - destruct H as [H1 H2]. split; [|exact H2]. clear H2.
+    induction fs as [|b bs IHb]; constructor; [apply IH; apply H1|apply IHb; apply H1].
+  - destruct H as (d & H1 & H2). exists d. split; [exact H1|split; [exact H2|]]. apply IH.
+    destruct (lookup_In e n0 d H1) as (k & Hin). unfold wf_env in He. rewrite Forall_forall in He.
+    exact (He _ Hin).
+  - apply IH. exact H.
+Qed.
+
+(** reader == writer through the code, with by-name references (recursive types included), values of any height *)
+Theorem rdec_identity_zoneS_all : forall o n e s a, typedn n e s a -> wf_env e -> wf_local e s ->
+  env_scoped e = true -> scoped e s = true -> agree_all e e s s = true ->
+  forall f x, (n <= f)%nat ->
+  exists v, py_of o e s a = Some v /\ rdec f e e o s (Some s) (wire a ++ x)%list = ROk (v, x).
+Proof.
+  intros o n e s a Ht He Hl Hes Hs Ha f x Hf.
+  exact (rdec_identity_zoneS o n e s a Ht (wf_local_ident e He n s Hl) Hes Hs n f x (le_n n) Hf
+           (agree_all_agreen e e s s Ha n)).
+Qed.
+
+
 From Coq Require Import String.
 Open Scope string_scope. Open Scope Z_scope.
 (* ------------------------------------------------------------------------------------------ *)
@@ -2873,3 +3066,44 @@ Lemma ref_witnesses_in_zone :
   (env_scoped f7_we && env_scoped f7_re && scoped f7_we f7_w && scoped f7_re f7_r && agreen 6 f7_we f7_re f7_w f7_r = true) /\
   (env_scoped g1_we && env_scoped g1_re && scoped g1_we g1_w && scoped g1_re g1_r && agreen 6 g1_we g1_re g1_w g1_r = true).
 Proof. split; vm_compute; reflexivity. Qed.
+
+(** a recursive type: a linked list read with a reader that promotes the payload and adds a field *)
+Definition ll_next := SUnion [SNull; SRef (s2b "Node")].
+Definition ll_w := SRecord (s2b "Node") [] [fld (s2b "v") SInt; fld (s2b "next") ll_next].
+Definition ll_r := SRecord (s2b "Node") [] [fldd (s2b "tag") SString (PStr (s2b "t")); fld (s2b "next") ll_next; fld (s2b "v") SLong].
+Definition ll_we : env := [(s2b "Node", ll_w)].
+Definition ll_re : env := [(s2b "Node", ll_r)].
+Lemma ll_in_zone :
+  env_scoped ll_we && env_scoped ll_re && scoped ll_we ll_w && scoped ll_re ll_r && agree_all ll_we ll_re ll_w ll_r = true /\
+  env_scoped ll_we && scoped ll_we ll_w && agree_all ll_we ll_we ll_w ll_w = true.
+Proof. split; vm_compute; reflexivity. Qed.
+Lemma ll_union_ok : union_ok ll_we [SNull; SRef (s2b "Node")].
+Proof.
+  intros i b Hn. cbn [nthZ] in Hn.
+  destruct (i =? 0); [injection Hn as <-; split; [reflexivity|eexists; split; vm_compute; reflexivity]|].
+  destruct (i <? 0); [discriminate|]. destruct (i - 1 =? 0); [|destruct (i - 1 <? 0); discriminate].
+  injection Hn as <-; split; [reflexivity|eexists; split; vm_compute; reflexivity].
+Qed.
+Lemma ll_wf : wf_env ll_we /\ wf_local ll_we ll_w.
+Proof.
+  assert (H : wf_local ll_we ll_w).
+  { unfold ll_w, ll_next. cbn [wf_local ftype fld].
+    split; [|repeat constructor]. split; [exact I|]. split; [|exact I]. split; [|exact ll_union_ok].
+    split; [exact I|]. split; [|exact I]. eexists; split; vm_compute; reflexivity. }
+  split; [constructor; [exact H|constructor]|exact H].
+Qed.
+
+(* any list, of any length, is read as the specification says; one of length 3 by computation *)
+Lemma ll_any_length : forall o n a, typedn n ll_we ll_w a -> forall f x, (n <= f)%nat ->
+  rdec f ll_we ll_re o ll_w (Some ll_r) (wire a ++ x)%list = lift x (resolve o ll_we ll_re ll_w ll_r a).
+Proof.
+  intros o n a Ht f x Hf. destruct ll_in_zone as [H _].
+  repeat (apply andb_prop in H as [H ?]).
+  apply (rdec_resolve_zoneS_all o n ll_we ll_w a Ht ll_re ll_r f x Hf); assumption.
+Qed.
+Definition ll_a := ARecord [AInt 1; AUnion 1 (ARecord [AInt 2; AUnion 1 (ARecord [AInt 3; AUnion 0 ANull])])].
+Definition ll_node (v : Z) (next : pyval) :=
+  PDict [(PStr (s2b "v"), PInt v); (PStr (s2b "next"), next); (PStr (s2b "tag"), PStr (s2b "t"))].
+Lemma ll_three :
+  rdec 12 ll_we ll_re ropts0 ll_w (Some ll_r) (wire ll_a) = ROk (ll_node 1 (ll_node 2 (ll_node 3 PNone)), []).
+Proof. vm_compute. reflexivity. Qed.
